@@ -136,7 +136,10 @@ class QModuleMixin(ABC):
         self.register_buffer("output_scale", torch.ones(()))
 
     def _save_to_state_dict(self, destination, prefix, keep_vars):
-        if self.weight_qtype is None or not self.frozen:
+        if self.weight is None:
+            # Module without parameters
+            pass
+        elif self.weight_qtype is None or not self.frozen:
             # Save standard weight Tensor
             destination[prefix + "weight"] = self.weight if keep_vars else self.weight.detach()
         else:
@@ -195,6 +198,9 @@ class QModuleMixin(ABC):
         qmodule = cls.qcreate(module, weights, activations, optimizer)
         if qmodule is None:
             return None
+        if module.weight is None:
+            # Module without parameters (elementwise_affine=False)
+            return qmodule
         with torch.no_grad():
             qmodule.weight.copy_(module.weight)
             if module.bias is not None:
